@@ -33,7 +33,7 @@ ASSUMPTIONS = [
     '&& and || only as truth values or on 0/1 operands; negative values are never zero-padded',
     'HTML output is compared after undoing HTML escaping once (entities -> characters) and mapping the non-breaking space to a space in both modes',
     'loop variables are tokens that occur nowhere else in the text; #FOR flag 4 (variable in separator) is generated only with separators that do not contain the variable',
-    '#LET string values never begin or end with whitespace and loop separators / #FOREACH values / format specs never contain & < > outside the dedicated hazard classes '
+    '#LET string values never begin or end with whitespace, loop separators / #FOREACH values / format specs never contain & < > and case-converted #FORMAT text never contains quotes outside the dedicated hazard classes '
     '(each hazard class is a candidate finding, reported with its own finding id)',
     'each text restores or re-initialises the 16 private snapshot bytes it pokes and uses text-unique variable, macro and snapshot names, because the HTML writer expands '
     'some fields more than once and in a different order than the ASM writer',
@@ -46,7 +46,9 @@ HAZARDS = {
     'esc': 'C17-loop-separator-double-escaped-in-html',
     'fmt-angle': 'C17-format-spec-angle-bracket-fails-in-html',
     'let-space': 'C17-let-string-edge-whitespace-stripped-in-asm',
+    'quote-upper': 'C17-loop-apostrophe-entity-uppercased-in-html',
 }
+HAZARD_LIST = ['esc', 'fmt-angle', 'let-space', 'quote-upper']
 
 def plan(tier, seed):
     n = 16
@@ -132,6 +134,9 @@ def classify(chunk, asm_ok, html_ok, asm_val, html_vals, exp, rh_err=None, alt=N
             return HAZARDS['esc']
     if hz == 'fmt-angle' and asm_ok and rh_err and 'Invalid format string' in rh_err:
         return HAZARDS['fmt-angle']
+    if hz == 'quote-upper' and asm_ok and rh_err and 'Found unknown macro: #X' in rh_err:
+        # html.escape() in #FOR/#FOREACH turned ' into &#x27;, #FORMAT2 upper-cased it to &#X27; and #X is then read as a macro
+        return HAZARDS['quote-upper']
     if hz == 'let-space' and html_ok and not asm_ok and alt is not None and asm_val == alt:
         # ASM output is what the reference gives when #LET strips the string value
         return HAZARDS['let-space']
@@ -262,12 +267,12 @@ def run(shard, spec):
         nch = CHUNKS_PER_FILE
         if kind == 'hazard':
             rng = shard.rng('hazard', fi, j)
-            hazard = ['esc', 'fmt-angle', 'let-space'][fi % 3]
+            hazard = HAZARD_LIST[fi % 4]
             nch = 1
         else:
             rng = shard.rng('file', fi)
             if fi % 40 == 39:
-                hazard = ['esc', 'fmt-angle', 'let-space'][(fi // 40) % 3]
+                hazard = HAZARD_LIST[(fi // 40) % 4]
                 nch = 1
         f = mg.make_file(rng, nch, hazard=hazard)
         try:
@@ -349,5 +354,5 @@ TECHNIQUE = ('boundary recorder with sentinels on the real skool2asm and skool2h
 LEVEL_TEXT = ('Each generated skool file carries ~40 self-contained macro texts at ~60 positions; skool2asm stdout and every HTML page written by skool2html are '
               'searched for the sentinel pairs and each expansion is compared with the reference value for that text and position. Sampled exploration of the '
               'macro grammar; nothing is enumerated completely.')
-LEVEL_NOTE = ('Texts whose meaning the documentation leaves open are not generated (see assumptions). Hazard classes that probe three suspected ASM/HTML '
+LEVEL_NOTE = ('Texts whose meaning the documentation leaves open are not generated (see assumptions). Hazard classes that probe four ASM/HTML '
               'discrepancies are run in single-text files and reported under their own finding ids.')
